@@ -7,6 +7,7 @@
 //   3 ta tb a b             s = toString(pair(a,b)); stringTo                      -> |s| s ok a' b'
 //   4 ty e len bytes...     xconvert(x, vector<T>&, &end, 0), string_cast          -> t (end - x) elems... cast_ok
 //   5 ty n v1..vn           s = toString(vector); stringTo                         -> |s| s ok m elems...
+//   7 ty lo hi              for v in lo..hi: stringTo(toString(T(v))) == v ?                 -> #failures first-failure
 //   6 k                     k = 0: <climits>; k = enum type code: eMin eMax |rep| rep
 // ty: 0 bool 1 char 2 int 3 unsigned 4 long 5 unsigned long 6 long long 7 unsigned long long
 //     8 Head_t 9 Body_t 10 Value_t 11 Heuristic_t 12 Directive_t 13 Theory_t 14 Tuple_t 15 Clause_t 16 Statistics_t
@@ -162,6 +163,20 @@ template <class T> void opPrintList(Obs& o, const std::vector<ll>& vs) {
 	o.add(ok ? 1 : 0); o.add(static_cast<ll>(back.size()));
 	for (std::size_t i = 0; i != back.size(); ++i) o.add(Tr<T>::enc(back[i]));
 }
+// op 7: exhaustive value-level round trip over lo..hi (inclusive)
+template <class T> void opSweep(Obs& o, ll lo, ll hi) {
+	ll fails = 0, first = 0;
+	std::string s;
+	for (ll v = lo;; ++v) {
+		T val = Tr<T>::make(v), back = Tr<T>::init();
+		s.clear();
+		xconvert(s, val);
+		errno = 0;
+		if (!stringTo(s.c_str(), back) || !(back == val)) { if (!fails++) first = v; }
+		if (v == hi) break;
+	}
+	o.add(fails); o.add(first);
+}
 template <class T> void opMeta(Obs& o) {
 	EnumClass ec = T::enumClass();
 	o.add(ec.min); o.add(ec.max); o.add(static_cast<ll>(std::strlen(ec.rep))); o.addBytes(ec.rep, std::strlen(ec.rep));
@@ -192,8 +207,7 @@ int main() {
 			}
 			else if (op == 4) {
 				ll ty = c.next(); bool e = c.next() != 0; ll len = c.next(); std::string s = c.bytes(len > 0 ? (size_t)len : 0);
-				// vector<bool>: convert_seq pushes an uninitialised bool for an unrecognised word - not driven
-				if (!isComp(ty) || ty == 0) o.add(-998);
+				if (!isComp(ty)) o.add(-998);
 				else withComp(ty, [&](auto t) { opParseList<typename decltype(t)::type>(o, e, s); });
 			}
 			else if (op == 5) {
@@ -218,6 +232,11 @@ int main() {
 				else if (k == 15) opMeta<Clause_t>(o);
 				else if (k == 16) opMeta<Statistics_t>(o);
 				else o.add(-998);
+			}
+			else if (op == 7) {
+				ll ty = c.next(), lo = c.next(), hi = c.next();
+				if (ty < 0 || ty > 7 || lo > hi) o.add(-998);
+				else withScalar(ty, [&](auto t) { opSweep<typename decltype(t)::type>(o, lo, hi); });
 			}
 			else o.add(-998);
 		}
